@@ -154,6 +154,10 @@ struct RunOut
   double scale_fin = 0;
   double dist_min  = NAN;  // distance of the arguments on return to the closed-form minimiser (NaN: none)
   StratState end;
+  /// the overloads without a callback (minimize<D>(f, x, opts), and minimize(f, x, opts) for Default), run from the same start
+  /// and strategy state, returned the same status / iteration count / arguments / strategy state, bit for bit
+  bool overloads_agree = true;
+  std::string overloads_note;
 };
 
 /// functor adaptor that hides `jacobian` (so that diff::Type::Default must fall back to Numerical)
@@ -214,6 +218,36 @@ RunOut run_one(const TP & p, int start, int mode, size_t max_iter, double ptol, 
   o.cost_fin  = cost_of(std::apply(fj, x));
   o.scale_fin = p.fscale(x);
   o.dist_min  = p.dist_min(x);
+  // the convenience overloads must be the same solve
+  for (int variant = 0; variant < (mode >= DefaultJac ? 2 : 1); ++variant) {
+    Args x2 = p.start(start);
+    smooth::MinimizeOptions o2 = opts;
+    o2.strat                   = make_strat(s0);
+    auto xr2                   = std::apply([](auto &... a) { return std::forward_as_tuple(a...); }, x2);
+    smooth::SolveResult r2{};
+    NoJac<decltype(fj)> fn{fj};
+    if (variant == 0) {
+      switch (mode) {
+      case Numerical: r2 = smooth::minimize<smooth::diff::Type::Numerical>(fj, xr2, o2); break;
+      case Analytic: r2 = smooth::minimize<smooth::diff::Type::Analytic>(fj, xr2, o2); break;
+      case DefaultJac: r2 = smooth::minimize<smooth::diff::Type::Default>(fj, xr2, o2); break;
+      default: r2 = smooth::minimize<smooth::diff::Type::Default>(fn, xr2, o2);
+      }
+    } else {
+      if (mode == DefaultJac)
+        r2 = smooth::minimize(fj, xr2, o2);
+      else
+        r2 = smooth::minimize(fn, xr2, o2);
+    }
+    const auto f2 = flatten(x2);
+    const bool same = r2.status == res.status && r2.iter == res.iter && f2.size() == o.fin.size() &&
+                      std::memcmp(f2.data(), o.fin.data(), f2.size() * sizeof(double)) == 0 && read_strat(s0.kind, *o2.strat) == o.end;
+    if (!same && o.overloads_agree) {
+      o.overloads_agree = false;
+      o.overloads_note  = mc::fmt("%s: status %d iter %u vs status %d iter %u with callback", variant == 0 ? "minimize<D>(f, x, opts)" : "minimize(f, x, opts)",
+        int(r2.status), unsigned(r2.iter), int(res.status), unsigned(res.iter));
+    }
+  }
   return o;
 }
 
@@ -226,6 +260,7 @@ struct Problem
   bool wellcond   = false;   // unique well-conditioned minimiser with a closed form: the convergence clause applies
   bool quick      = true;    // member of the quick-tier menu
   int nres        = 1;       // number of residuals
+  double log2_res_scale = 0; // see TPBase
   std::vector<char> basin;   // per start: inside the basin (premise of the convergence clause)
   std::vector<char> hist;    // per start: member of the history (prefix-solve) menu
   bool deep       = false;   // representative used for the judged menu of depth-2 history states
@@ -241,6 +276,7 @@ void add_problem(std::shared_ptr<const TP> p, bool quick = true)
 {
   Problem P;
   P.name     = p->name;
+  P.log2_res_scale = p->log2_res_scale;
   P.nstarts  = p->nstarts();
   P.modes    = p->modes();
   P.wellcond = p->wellcond();
@@ -259,11 +295,31 @@ void add_problem(std::shared_ptr<const TP> p, bool quick = true)
 struct TPBase
 {
   std::string name;
+  double log2_res_scale = 0;  // log2 of a uniform factor applied to the residual function (0: none)
   unsigned modes() const { return 0xF; }
 };
 
 /// analytic Jacobian of a typed problem's functor vs central differences in the tangent space (harness self-check:
 /// the "user" side of the experiment must be right for the Analytic runs to mean anything)
+/// x (+) e argument by argument (the harness's own segment bookkeeping, not the library's wrt_rplus)
+template<typename Tuple>
+Tuple tuple_rplus(const Tuple & x, const Eigen::VectorXd & e)
+{
+  Tuple r = x;
+  Eigen::Index off = 0;
+  std::apply(
+    [&](auto &... a) {
+      (([&] {
+         const Eigen::Index n = smooth::dof(a);
+         a                    = smooth::rplus(a, e.segment(off, n));
+         off += n;
+       }()),
+        ...);
+    },
+    r);
+  return r;
+}
+
 template<typename TP>
 bool jacobian_selfcheck(const TP & p, int start)
 {
@@ -276,9 +332,9 @@ bool jacobian_selfcheck(const TP & p, int start)
   for (Eigen::Index j = 0; j < J.cols(); ++j) {
     Eigen::VectorXd e = Eigen::VectorXd::Zero(J.cols());
     e(j)              = h;
-    auto xp = smooth::wrt_rplus(x, e);
+    auto xp = tuple_rplus(x, e);
     e(j)    = -h;
-    auto xm = smooth::wrt_rplus(x, e);
+    auto xm = tuple_rplus(x, e);
     const Eigen::VectorXd fp = std::apply(fj, xp), fm = std::apply(fj, xm);
     const Eigen::VectorXd col = (fp - fm) / (2 * h);
     worst = std::max(worst, (col - J.col(j)).cwiseAbs().maxCoeff() / std::max(1.0, J.cwiseAbs().maxCoeff()));
